@@ -34,12 +34,14 @@ class IterError(Exception):
 
 
 class Fut:
-    __slots__ = ("r", "e", "done", "hang")
+    __slots__ = ("r", "e", "done", "hang", "wait")
 
     def __init__(self):
-        self.r = None; self.e = None; self.done = False; self.hang = False
+        self.r = None; self.e = None; self.done = False; self.hang = False; self.wait = None
 
-    def get(self):
+    def get(self, timeout=None):
+        if not self.done and self.wait is not None:
+            self.wait(self, timeout)       # legacy protocol: the caller blocks in get() (ParallelBackendBase.retrieve_result)
         if self.e is not None:
             raise self.e
         return self.r
@@ -153,6 +155,7 @@ class Run:
 
             def submit(s, func, callback=None):
                 f = Fut()
+                if not cfg["rc"]: f.wait = s._wait
                 idx = [it[1][0] for it in func.items]; tag = func.items[0][1][1]
                 lo, hi = min(idx), max(idx) + 1
                 R.ev(ev="Submit", c=tag, lo=lo, hi=hi); R.bev("Submit")
@@ -170,9 +173,8 @@ class Run:
 
             def retrieve_result_callback(s, out): return out.get()
 
-            def retrieve_result(s, out, timeout=None):
-                # only for rc=False: the caller blocks until the job is done
-                waited = 0
+            # rc=False: ParallelBackendBase.retrieve_result (not overridden) calls out.get(timeout=...) / out.get()
+            def _wait(s, out, timeout=None):
                 while not out.done:
                     ready = [k for k, it in enumerate(s.pending) if not it[2].hang]
                     if not ready:
@@ -184,7 +186,6 @@ class Run:
                         raise Hang()
                     k = ready[R.choose("wait", len(ready))]
                     s._complete(s.pending.pop(k))
-                return out.get()
 
             def completable(s):
                 return [k for k, it in enumerate(s.pending) if not it[2].hang]
